@@ -1,5 +1,6 @@
 import HcProofs.Lemmas.PairVerify
 import HcProofs.Lemmas.Handover
+import HcProofs.Lemmas.PlainFraming
 /-
   C03 — a connection becomes verified only by a valid long-term-key signature.
   Model: HcModel/PairVerify.lean (symbolic; the repaired controller + endpoint is `step true`).
@@ -159,6 +160,66 @@ theorem hand_over_unstrict_refuted :
      (run true false [.readStart, .foreign, .readDone, .setCrypt, .writeResp]).cur = true) ∧
     (run true true [.excess, .setCrypt, .writeResp]).closed = true ∧
     (run true true [.readStart, .foreign, .readDone, .setCrypt, .writeResp]).closed = true := by decide
+
+
+-- byte level of the `strict` flag above: how a plaintext connection finds the end of a request (hap/connection.go
+-- plainRequest, model HcModel/PlainFraming.lean). `cl` stands for net/http's own parser (ReadRequest(..).ContentLength).
+
+open Hc.PlainFraming in
+/-- How the peer's bytes are cut into TCP segments / raw reads does not matter: feeding `a` and then `b` is feeding
+    `a ++ b` (for every parser, every state, all bytes). -/
+theorem plain_framing_segmentation_independent (cl : Bytes → Option Nat) (m : Nat) (s : PlainFraming.St) (a b : Bytes) :
+    feed cl m s (a ++ b) = (feed cl m s a).bind (fun s' => feed cl m s' b) :=
+  feed_append cl m s a b
+
+open Hc.PlainFraming in
+/-- After a complete request, and until a response is written, every further byte is refused — whatever it is. -/
+theorem plain_framing_nothing_after_complete (cl : Bytes → Option Nat) (m : Nat) (s : PlainFraming.St)
+    (h : s.complete = true) (b : Bytes) (hb : b ≠ []) :
+    feed cl m s b = none ∧ feed cl m (respond s) [] = some (respond s) ∧ (respond s).complete = false :=
+  ⟨complete_refuses cl m s h b hb, rfl, rfl⟩
+
+open Hc.PlainFraming in
+/-- Exactly one request: a header `hp ++ [z]` whose first header end is its own end, announcing `n` body bytes, followed
+    by exactly `n` bytes, is accepted and leaves the connection waiting for the response; with ANY further byte glued
+    behind it (the F19 attack: a plaintext request behind the pair-verify finish) the read is refused. -/
+theorem plain_framing_one_request (cl : Bytes → Option Nat) (m : Nat) (hp : Bytes) (z : UInt8) (n : Nat) (body extra : Bytes)
+    (hlen : hp.length ≤ m) (hno : ∀ p, p <+: hp → p ≠ [] → endsHeader p = false)
+    (hend : endsHeader (hp ++ [z]) = true) (hcl : cl (hp ++ [z]) = some n) (hb : body.length = n) :
+    feed cl m PlainFraming.init (hp ++ [z] ++ body) = some ⟨[], 0, false, true⟩ ∧
+    (extra ≠ [] → feed cl m PlainFraming.init (hp ++ [z] ++ body ++ extra) = none) := by
+  have h1 : feed cl m PlainFraming.init hp = some ⟨hp, 0, false, false⟩ := feed_header cl m hp hlen hno [] hp rfl
+  have h2 : feed cl m ⟨hp, 0, false, false⟩ [z] = some ⟨[], n, decide (n > 0), decide (n = 0)⟩ := by
+    simp [feed, byte, hend, hcl]
+  have h3 : feed cl m ⟨[], n, decide (n > 0), decide (n = 0)⟩ body = some ⟨[], 0, false, true⟩ := by
+    by_cases hn : n = 0
+    · subst hn
+      have : body = [] := by cases body <;> simp_all
+      subst this
+      simp [feed]
+    · have hpos : 0 < n := by omega
+      have e1 : decide (n > 0) = true := by simpa using hpos
+      have e2 : decide (n = 0) = false := by simpa using hn
+      rw [e1, e2]
+      exact feed_body cl m n body hb hpos
+  have hall : feed cl m PlainFraming.init (hp ++ [z] ++ body) = some ⟨[], 0, false, true⟩ := by
+    rw [List.append_assoc, feed_append, h1]
+    simp only [Option.bind_some]
+    rw [feed_append, h2]
+    simpa using h3
+  refine ⟨hall, fun hx => ?_⟩
+  rw [feed_append, hall]
+  simpa using complete_refuses cl m ⟨[], 0, false, true⟩ rfl extra hx
+
+open Hc.PlainFraming in
+/-- non-vacuity: the header "P /\r\n\r\n" announcing 3 body bytes, three body bytes; a fourth byte is refused; after
+    the response the next request is accepted again -/
+example :
+    let h : Bytes := [80, 32, 47, 13, 10, 13, 10]
+    let cl : Bytes → Option Nat := fun _ => some 3
+    feed cl 64 PlainFraming.init (h ++ [6, 1, 3]) = some ⟨[], 0, false, true⟩ ∧
+    feed cl 64 PlainFraming.init (h ++ [6, 1, 3] ++ [80]) = none ∧
+    run cl 64 PlainFraming.init [.read (h ++ [6, 1]), .read [3], .respond, .read h] = some ⟨[], 3, true, false⟩ := by decide
 
 
 -- the behaviour before the repair is refuted -----------------------------------------------------------
